@@ -90,10 +90,21 @@ fn main() {
         }
         Some("dump-private-fns") => {
             // development aid: regenerate refdata/private_fns.json from the current (reviewed) tree
-            let files = ["parser/src/lexer.rs", "parser/src/string.rs", "parser/src/function.rs", "parser/src/soft_keywords.rs", "parser/src/parser.rs", "parser/src/context.rs", "parser/src/token.rs", "ast/src/unparse.rs", "ast/src/optimizer.rs", "ast/src/source_locator.rs", "ast/src/generic.rs", "ast/src/impls.rs", "core/src/source_code.rs", "format/src/format.rs", "format/src/cformat.rs", "literal/src/escape.rs", "literal/src/char.rs", "literal/src/float.rs", "literal/src/format.rs", "vendored/src/source_location/line_index.rs", "vendored/src/source_location/newlines.rs", "vendored/src/source_location/mod.rs"];
+            let mut files: Vec<String> = vec![];
+            for d in ["parser/src", "ast/src", "core/src", "format/src", "literal/src", "vendored/src/source_location", "vendored/src/text_size"] {
+                if let Ok(rd) = std::fs::read_dir(repo.join(d)) {
+                    for e in rd.flatten() {
+                        let p = e.path();
+                        if p.extension().map_or(false, |x| x == "rs") && p.file_name().map_or(true, |n| n != "python.rs") {
+                            files.push(format!("{}/{}", d, p.file_name().unwrap().to_string_lossy()));
+                        }
+                    }
+                }
+            }
+            files.sort();
             let mut out = serde_json::Map::new();
             std::env::remove_var("VERIF_DIR");
-            for rel in files {
+            for rel in files.iter().map(|s| s.as_str()) {
                 if let Ok(src) = srcmodel::load(&repo, rel) {
                     let v: Vec<serde_json::Value> = srcmodel::private_fns(&src.file).into_iter().map(|(o, n, s)| serde_json::json!([o, n, s])).collect();
                     out.insert(rel.to_string(), serde_json::Value::Array(v));
